@@ -94,3 +94,87 @@ def replay_pure(rp, exe, work, M):
         return 1
     print("not reproduced on the current tree")
     return 0
+
+
+# ---------------------------------------------------------------------------------------------- C19 replicas
+def _replica_traces(M, exe, work, scheds, seed, tag_prefix=""):
+    """Runs the schedules on replicas A/B/C in TWO OS processes (different GOMAXPROCS, different wall-clock), merges the
+    observations sorted by (schedule, kind, height, replica) and returns the merged trace file + stats."""
+    sf = os.path.join(work, "rep-schedules.ndjson")
+    with open(sf, "w") as f:
+        for s in scheds:
+            f.write(json.dumps(s) + "\n")
+    outdir = os.path.join(work, "rep")
+    stats = {}
+    import subprocess
+    procs = []
+    for tag, gmp in (("p1", "3"), ("p2", "8")):
+        env = dict(os.environ, GOMAXPROCS=gmp)
+        procs.append((tag, subprocess.Popen([exe, "replicas", "-schedules", sf, "-out", outdir, "-seed", str(seed), "-workers", str(max(1, M.NCPU // 2)), "-tag", tag],
+                                            env=env, stdout=subprocess.PIPE, stderr=subprocess.STDOUT, text=True)))
+        time.sleep(1.1)  # the two processes never share a wall-clock second at start
+    for tag, p in procs:
+        out, _ = p.communicate(timeout=3600)
+        if p.returncode != 0 or "DRIVER-PANIC" in out:
+            raise M.Infra("replicas run failed (%s):\n%s" % (tag, out[-3000:]))
+        for line in out.splitlines():
+            if line.startswith("STATS "):
+                for k, v in json.loads(line[6:]).items():
+                    stats[k] = stats.get(k, 0) + v
+    import glob
+    recs = []
+    for fn in glob.glob(os.path.join(outdir, "*.ndjson")):
+        for l in open(fn):
+            d = json.loads(l)
+            recs.append(((d["ev"]["schedule"], d["kind"], d["ev"]["h"], d["ev"]["replica"]), l.strip()))
+    recs.sort(key=lambda x: x[0])
+    merged = os.path.join(work, "rep-merged.ndjson")
+    with open(merged, "w") as f:
+        last = None
+        for key, l in recs:
+            if key[0] != last:
+                f.write('{"ev":{"name":"Reset","sender":"","ok":true,"args":{"schedule":%s},"replica":"","h":0},"kind":"Reset"}\n' % json.dumps(key[0]))
+                last = key[0]
+            f.write(l + "\n")
+    return merged, stats
+
+
+def run_replicas(pid, tier, seed, work, t0, M):
+    P = M.PROPS[pid]
+    exe = M.build_harness(work)
+    # the abstract model: agreement holds for a transition that reads only store and block, and TLC finds the
+    # counterexample as soon as volatile memory or process-local randomness leaks in (the model is not vacuous)
+    cfg = open(os.path.join(V, "spec/mc/MC_replicas.cfg")).read()
+    rc, out, dt = M.tlc(work, "mc", "MC_replicas", cfg, "int", 4, 300)
+    if "No error has been found" not in out:
+        raise M.Infra("MC_replicas failed:\n" + out[-2000:])
+    mstates, mtrans = M.tlc_counts(out)
+    for sub in (("ReadsMemory = FALSE", "ReadsMemory = TRUE"), ("Env = FALSE", "Env = TRUE")):
+        rc, out2, dt = M.tlc(work, "mc", "MC_replicas", cfg.replace(*sub), "int", 4, 300)
+        if "Invariant Agreement is violated" not in out2:
+            raise M.Infra("MC_replicas sanity: variant %s should violate Agreement" % sub[1])
+    scheds = []
+    for src in P["sources"]:
+        n, depth = src[tier]
+        scheds += M.gen_walks(exe, work, src["family"], n, depth, seed)
+    ids = {s["id"]: s for s in scheds}
+    merged, stats = _replica_traces(M, exe, work, scheds, seed)
+    results = M.validate_all(work, [merged], "TraceRep")
+    M.log("replicas: %s" % stats)
+    cov = {"model_states": mstates, "model_transitions": mtrans, "harness_stats": stats, "replicas_per_schedule": 6,
+           "replica_kinds": "2 OS processes (GOMAXPROCS 3 and 8, started 1.1 s apart) x {A never stopped, B independent instance, C restarted from its database after every committed block}",
+           "samples": [scheds[0]] + [M.trace_line(merged, 2), M.trace_line(merged, 3)]}
+    return M.decide(pid, tier, seed, results, ids, t0, cov, P.get("assumptions", []))
+
+
+def replay_replicas(rp, exe, work, M):
+    merged, stats = _replica_traces(M, exe, work, [rp["schedule"]], rp["seed"])
+    res = M.validate_all(work, [merged], "TraceRep")
+    fails = [f for r in res for f in r["fails"] if f["prop"] == rp["property"]]
+    for f in fails:
+        print("REPLAY-FAIL property=%s check=%s info=%s" % (rp["property"], f["check"], f.get("info", "")))
+    if fails:
+        print("reproduced: %s" % fails[0]["check"])
+        return 1
+    print("not reproduced on the current tree")
+    return 0
